@@ -31,6 +31,7 @@ impl Prop for C12 {
         let mut p = params(tier);
         p.regime_pct = 90;
         p.cogen_heavy = true;
+        p.long_w = 40;
         bf_case(p, 30)
     }
     fn describe(c: &BFCase) -> Value {
